@@ -11,6 +11,7 @@
 import TwModel
 import TwSpec
 import TwProofs.Lemmas.EvalStep
+import TwProofs.Lemmas.TextEach
 
 namespace Tw.C04
 open Tw
@@ -239,5 +240,69 @@ example : (match evaluateStringPure [] (b "{{ x = 1 }}@if(true){{ x = \"s\" }}@e
 
 example : (match evaluateStringPure [] (b "@each(v in [1])x@end{{ v }}") [] with
     | .fail f => f.msg == formatMsg "ErrIdentifierNotFound" [b "v"] | _ => false) = true := by decide +kernel
+
+/-! ### from the source bytes: names bound by a construct vanish when it ends -/
+
+/-- the passes of a loop whose body is `{{ x }}`: the elements, printed one after the other -/
+theorem passTexts_var (env : Env) (x : Bytes) (hx : (x == b "loop") = false) (n : Nat) : ∀ (vs : List Val) (i : Nat),
+    passTexts env x [.hole x] n vs i = vs.flatMap Val.toStr
+  | [], _ => rfl
+  | v :: r, i => by
+    have hg : (passEnv env x v i n).get x = some v := by
+      simp [passEnv, Env.get, mapGet]
+    simp only [passTexts, fill, hg, Option.map_some, Option.getD_some, List.append_nil, List.flatMap_cons]
+    rw [passTexts_var env x hx n r (i + 1)]
+
+/-- **the loop variable is gone after the loop (from the source bytes)**: the template
+    `@each(x in xs){{ x }}@end{{ x }}` — for every identifier `x` other than `loop`, every
+    identifier `xs`, every array of elements of one type bound to `xs` and every value of that type
+    bound to `x` outside — renders the elements and then the OUTER value of `x`: inside the loop
+    `x` is the element (it shadows the outer binding), after `@end` the outer binding is back, not
+    the last element.  An instance of `xitems_render` (lexer, parser and evaluator composed). -/
+theorem loop_variable_is_gone_after_the_loop_from_source (custom : List ((VType × Bytes) × Nat)) (x xs : Bytes)
+    (hx : isName x) (hxs : isName xs) (hxl : (x == b "loop") = false)
+    (data : List (Bytes × GoVal)) (env : Env) (henv : envFromMap data = .ok env)
+    (vs : List Val) (ty : VType) (outer : Val) (harr : env.get xs = some (.arr vs)) (hty : ∀ v ∈ vs, v.type = ty)
+    (hout : env.get x = some outer) (houtty : outer.type = ty) (hsize : vs.length + 12 ≤ evalFuel) :
+    evaluateStringPure custom (b "@each(" ++ x ++ b " in " ++ xs ++ b "){{" ++ x ++ b "}}@end{{" ++ x ++ b "}}") data =
+      .ok (vs.flatMap Val.toStr ++ outer.toStr) := by
+  have hok : XItemsOK [.each [] x [32] [32] xs [] [.print [] x []], .print [] x []] := by
+    refine ⟨(fun _ h => by cases h), by decide, by decide, by decide, by decide, (fun _ h => by cases h), hx, hxs, ⟨(fun _ h => by cases h), (fun _ h => by cases h), hx, trivial⟩,
+      (fun _ h => by cases h), (fun _ h => by cases h), hx, trivial⟩
+  have hb : xbound env (xspec [.each [] x [32] [32] xs [] [.print [] x []], .print [] x []]) := by
+    refine ⟨⟨vs, ty, harr, hty, fun old ho => ?_⟩, hxl, ⟨Or.inl rfl, trivial⟩, by simp [hout], trivial⟩
+    rw [hout] at ho
+    cases ho
+    exact houtty
+  have h := xitems_render custom [.each [] x [32] [32] xs [] [.print [] x []], .print [] x []] hok data env henv hb (by
+    have harr' : arrOf env xs = vs := by simp [arrOf, harr]
+    simp [xneed, xspec, bpieces, harr']
+    omega)
+  have hsrc : xitemsSrc [.each [] x [32] [32] xs [] [.print [] x []], .print [] x []] =
+      b "@each(" ++ x ++ b " in " ++ xs ++ b "){{" ++ x ++ b "}}@end{{" ++ x ++ b "}}" := by
+    have e1 : b "@each(" = kwEach ++ [40] := by decide
+    have e2 : b " in " = [32] ++ kwIn ++ [32] := by decide
+    have e3 : b "){{" = [41, 123, 123] := by decide
+    have e4 : b "}}@end{{" = [125, 125] ++ kwEnd ++ [123, 123] := by decide
+    have e5 : b "}}" = [125, 125] := by decide
+    rw [e1, e2, e3, e4, e5]
+    simp [xitemsSrc, XItem.src, bodySrc, BItem.src, List.append_assoc]
+  have hren : xrender env (xspec [.each [] x [32] [32] xs [] [.print [] x []], .print [] x []]) = vs.flatMap Val.toStr ++ outer.toStr := by
+    have harr' : arrOf env xs = vs := by simp [arrOf, harr]
+    simp only [xspec, xrender, bpieces, harr', hout, Option.map_some, Option.getD_some, List.append_nil]
+    rw [passTexts_var env x hxl]
+  rw [hsrc, hren] at h
+  exact h
+
+example : evaluateStringPure [] (b "@each(v in xs){{v}}@end{{v}}") [(b "v", .str (b "outer")), (b "xs", .slice [.str (b "a"), .str (b "b")])] =
+    .ok (b "abouter") := by
+  have := loop_variable_is_gone_after_the_loop_from_source [] (b "v") (b "xs") (by decide) (by decide) (by decide)
+    [(b "v", .str (b "outer")), (b "xs", .slice [.str (b "a"), .str (b "b")])]
+    [[(b "v", .str (b "outer")), (b "xs", .arr [.str (b "a"), .str (b "b")])]] (by rfl)
+    [.str (b "a"), .str (b "b")] .STRING (.str (b "outer")) (by rfl) (by decide) (by rfl) rfl (by decide)
+  have hs : b "@each(" ++ b "v" ++ b " in " ++ b "xs" ++ b "){{" ++ b "v" ++ b "}}@end{{" ++ b "v" ++ b "}}" = b "@each(v in xs){{v}}@end{{v}}" := by decide
+  have ho : [Val.str (b "a"), Val.str (b "b")].flatMap Val.toStr ++ (Val.str (b "outer")).toStr = b "abouter" := by decide
+  rw [hs, ho] at this
+  exact this
 
 end Tw.C04
